@@ -588,7 +588,17 @@ func runC06Kill(c *Ctx, cs *C06Case, v *Verdict, rows []Row) *Verdict {
 			sh := exec.Command("/bin/sh", "-c", fmt.Sprintf("ulimit -f %d && exec \"$0\" \"$@\"", blocks), os.Getenv("VERIF_UPDOG_BIN"))
 			sh.Args = append(sh.Args, append(mode, "-o", out, in)...)
 			sh.Env = append(os.Environ(), "TMPDIR="+tmp)
-			err := sh.Run()
+			var err error
+			switch rc, text := runCmd(sh); rc {
+			case 0:
+			case -2:
+				// no deferred clean-up ever runs: what it left is an image, too; the hang itself is the verdict
+				return v.Violate("writer-hang", "`updog %s` under a file size limit of %d bytes never exits: all threads asleep, no CPU time for 10 s\n%s", strings.Join(mode, " "), blocks*512, clipStr(text, 600))
+			case -3, -1:
+				return v.Harness("child under a file size limit: rc %d: %s", rc, clipStr(text, 300))
+			default:
+				err = fmt.Errorf("exit status %d", rc)
+			}
 			v.Count("fault_file_size_limit_runs", 1)
 			b, rerr := os.ReadFile(out)
 			if rerr != nil {
